@@ -8,10 +8,13 @@
 // real SyncConfigTunnels. The expected averages come from the values the harness recorded,
 // not from the recorder.
 //
-// Stale measurements need real elapsed time (the recorder reads the clock): the thorough tier
-// records them for all cases, sleeps once for 11 s and then adds the fresh ones; the quick
-// tier wraps the real recorder and answers "no measurement" for the keys marked stale.
-// No verdict depends on how long anything took: a case whose fresh values might have aged
+// Stale measurements: the recorder reads the clock. The build overlays rtt/rtt.go (regenerated from
+// the repository's current text) so that it reads a settable clock (`clockfile:` extra of
+// tools/mkoverlay.sh): every case records its stale samples 10.001 s .. 1 h before, and its fresh
+// samples 0 .. 9 s before, the virtual instant at which the set is observed, so that a node's
+// history holds aged-out samples in front of recent ones. The thorough tier runs its first 4000
+// cases on the real clock instead (stale samples recorded, one shared 11 s sleep, fresh samples):
+// there no verdict depends on how long anything took; a case whose fresh values might have aged
 // past 8 s (monotonic clock) before it was evaluated is skipped and counted.
 package main
 
@@ -39,6 +42,8 @@ type nodeSpec struct {
 	Unknown bool      `json:"unknown,omitempty"`
 	Fresh   []float64 `json:"fresh,omitempty"` // latencies recorded now (ns)
 	Stale   []float64 `json:"stale,omitempty"` // latencies recorded more than 10 s ago
+	StaleMs int64     `json:"stale_age_ms,omitempty"`
+	FreshMs int64     `json:"fresh_age_ms,omitempty"`
 }
 
 func (n nodeSpec) node() *protocol.Node {
@@ -48,20 +53,6 @@ func (n nodeSpec) node() *protocol.Node {
 type caseSpec struct {
 	No    int        `json:"case"`
 	Nodes []nodeSpec `json:"nodes"`
-}
-
-// staleStub is the quick-tier recorder: the real Instrumentation, except that keys marked
-// stale have no measurement.
-type staleStub struct {
-	*realrtt.Instrumentation
-	stale map[string]bool
-}
-
-func (s *staleStub) Snapshot(key string, past time.Duration) *rtt.Statistics {
-	if s.stale[key] {
-		return nil
-	}
-	return s.Instrumentation.Snapshot(key, past)
 }
 
 func makeCase(rng *rand.Rand, no int) caseSpec {
@@ -101,6 +92,8 @@ func makeCase(rng *rand.Rand, no int) caseSpec {
 		default:
 			ns.Fresh = vals()
 		}
+		ns.StaleMs = []int64{10001, 10500, 11000, 30000, 61000, 3600000}[rng.Intn(6)]
+		ns.FreshMs = []int64{0, 0, 1, 500, 3000, 9000}[rng.Intn(6)]
 		c.Nodes = append(c.Nodes, ns)
 	}
 	return c
@@ -116,7 +109,7 @@ func mean(v []float64) float64 {
 
 func main() {
 	r := ev.Start("C50", "exploration")
-	r.SetRule("one case = connected set of 0..8 nodes (distinct addresses, some flagged Unknown) and a measurement table: per node none / 1..6 fresh latencies / stale only / stale and fresh, values from {0, 1ns .. 1h} and random, with values shared between nodes (equal averages); observed at GetConnectedNodes, the dial target of each RPC and the Servers of PublishTunnel during a real SyncConfigTunnels. Non-trivial: >= 2 nodes connected and >= 1 measured. Distinct by (connected count, measured count among the result, unmeasured present, stale present, equal averages present, Unknown node present)")
+	r.SetRule("one case = connected set of 0..8 nodes (distinct addresses, some flagged Unknown) and a measurement table: per node none / 1..6 fresh latencies (0..9 s old) / stale only (10.001 s..1 h old) / stale in front of fresh, values from {0, 1ns .. 1h} and random, with values shared between nodes (equal averages); observed at GetConnectedNodes, the dial target of each RPC and the Servers of PublishTunnel during a real SyncConfigTunnels. Non-trivial: >= 2 nodes connected and >= 1 measured. Distinct by (connected count, measured count among the result, unmeasured present, stale present, equal averages present, Unknown node present)")
 	r.Assume("which (at most three) of more than three connected nodes are used is not stated by the property and not judged; order among equal averages (within 2 ns) and among unmeasured nodes is not judged")
 	dir, err := os.MkdirTemp(child.WorkDir(), "c50-")
 	if err != nil {
@@ -138,10 +131,11 @@ func main() {
 	defer rig.Close()
 
 	n := r.Pick(3000, 40000)
-	realStale := !r.Quick()
-	r.Extra("stale_measurements", map[bool]string{true: "real: recorded, then one shared 11 s sleep", false: "recorder stub answers nil for keys marked stale"}[realStale])
+	realN := r.Pick(0, 4000) // cases on the real clock
+	r.Extra("stale_measurements", "virtual clock (overlay of rtt/rtt.go): stale samples 10.001 s .. 1 h old in front of fresh ones 0 .. 9 s old; thorough: the first 4000 cases on the real clock with one shared 11 s sleep")
 	cases := make([]caseSpec, 0, n)
 	recs := make([]*realrtt.Instrumentation, 0, n)
+	realrtt.VerifNow = time.Now
 	for i := 0; i < n; i++ {
 		name := fmt.Sprintf("case%d", i)
 		if !r.WantCase(name) {
@@ -149,7 +143,7 @@ func main() {
 		}
 		c := makeCase(r.Rand(name), i)
 		rec := realrtt.NewInstrumentation(32)
-		if realStale {
+		if i < realN {
 			for _, ns := range c.Nodes {
 				for _, v := range ns.Stale {
 					rec.RecordLatency(rtt.MakeMeasurementKey(ns.node()), v)
@@ -159,35 +153,46 @@ func main() {
 		cases = append(cases, c)
 		recs = append(recs, rec)
 	}
-	if realStale {
+	if realN > 0 {
 		t0 := time.Now()
 		for time.Since(t0) < 11*time.Second { // monotonic; the recorder's window is 10 s
 			time.Sleep(time.Until(t0.Add(11 * time.Second)))
 		}
 	}
 	sampled := 0
+	epoch := time.Date(2030, 1, 1, 0, 0, 0, 0, time.UTC)
 	for i, c := range cases {
 		name := fmt.Sprintf("case%d", c.No)
 		rec := recs[i]
 		var recorder rtt.Recorder = rec
-		if !realStale {
-			stub := &staleStub{Instrumentation: rec, stale: map[string]bool{}}
+		start := time.Now()
+		if c.No < realN {
+			realrtt.VerifNow = time.Now
 			for _, ns := range c.Nodes {
-				if len(ns.Stale) > 0 && len(ns.Fresh) == 0 {
-					// something is recorded, but nothing recent
-					for _, v := range ns.Stale {
-						rec.RecordLatency(rtt.MakeMeasurementKey(ns.node()), v)
-					}
-					stub.stale[rtt.MakeMeasurementKey(ns.node())] = true
+				for _, v := range ns.Fresh {
+					rec.RecordLatency(rtt.MakeMeasurementKey(ns.node()), v)
 				}
 			}
-			recorder = stub
-		}
-		start := time.Now()
-		for _, ns := range c.Nodes {
-			for _, v := range ns.Fresh {
-				rec.RecordLatency(rtt.MakeMeasurementKey(ns.node()), v)
+			r.Count("cases_on_the_real_clock", 1)
+		} else {
+			at := epoch.Add(time.Duration(c.No) * 2 * time.Hour)
+			var now time.Time
+			realrtt.VerifNow = func() time.Time { return now }
+			for _, ns := range c.Nodes {
+				now = at.Add(-time.Duration(ns.StaleMs) * time.Millisecond)
+				for _, v := range ns.Stale {
+					rec.RecordLatency(rtt.MakeMeasurementKey(ns.node()), v)
+				}
+				now = at.Add(-time.Duration(ns.FreshMs) * time.Millisecond)
+				for _, v := range ns.Fresh {
+					rec.RecordLatency(rtt.MakeMeasurementKey(ns.node()), v)
+				}
+				if len(ns.Stale) > 0 && len(ns.Fresh) > 0 {
+					r.Count("nodes_with_aged_out_samples_in_front_of_recent_ones", 1)
+				}
 			}
+			now = at
+			r.Count("cases_on_the_virtual_clock", 1)
 		}
 		rig.Client.Recorder = recorder
 		var nodes []*protocol.Node
@@ -202,7 +207,7 @@ func main() {
 		rig.Client.SyncConfigTunnels(rig.Ctx)
 		peers := rig.Transport.TakePeers()
 		servers := svc.TakeServers()
-		if time.Since(start) > 8*time.Second {
+		if c.No < realN && time.Since(start) > 8*time.Second {
 			r.Count("dontcare_cases_skipped_measurements_may_have_aged", 1)
 			continue
 		}
